@@ -199,7 +199,7 @@ theorem spec_genname (src : Bytes) (env : PEnv) (md : Maildir) (flags : Option B
   | succ fuel ih =>
     unfold genname
     simp only [bind_eq, pure_eq, call_bind]
-    generalize (decimalInt env.now ++ [46] ++ decimal env.pid ++ [95] ++ decimal (count + 1) ++ [46] ++ env.host ++
+    generalize (decimalInt env.now ++ [46] ++ decimal env.pid ++ [95] ++ decimal ((count + 1) % gennameWrap) ++ [46] ++ env.host ++
           flags.getD []) = nm
     split
     · intro _ _ h; cases h
@@ -283,7 +283,7 @@ theorem spec_maildirMove (src : Bytes) (env : PEnv) (s dst : Maildir) (ms : MsgS
   split
   · own
   rename_i fl _
-  refine wp_bind_ext (spec_genname src env dst (some fl) 4096 _ _) ?_
+  refine wp_bind_ext (spec_genname src env dst (some fl) gennameAttempts _ _) ?_
   intro g L1 hg
   cases g with
   | none => own
@@ -324,7 +324,7 @@ theorem spec_maildirWrite (src : Bytes) (env : PEnv) (md : Maildir) (ms : MsgSt)
   split
   · exact hown
   rename_i fl _
-  refine wp_bind_ext (spec_genname src env md (some fl) 4096 _ _) ?_
+  refine wp_bind_ext (spec_genname src env md (some fl) gennameAttempts _ _) ?_
   intro g L1 hg
   cases g with
   | none => own
